@@ -52,11 +52,23 @@ REG = {
 }
 
 
+def _technique(translator):
+    """names the deciding method: Lean 4 proof; which translator items regenerate definitions the theorems are about"""
+    gen = [t for t in translator if t not in ("T1", "T2")]
+    tables = [t for t in translator if t in ("T1", "T2")]
+    parts = ["Lean 4 proof over hand-written model"]
+    if gen:
+        parts.append("and over definitions regenerated from the source on every run (translator " + ", ".join(gen) + ")")
+    if tables:
+        parts.append("with tables regenerated from the source (" + ", ".join(tables) + ")")
+    return " ".join(parts) + " + model/implementation correspondence"
+
+
 def _reg(pid, run, theorems=(), translator=("T1",), rule="", level_text="", level_note="", technique="", assumptions=(),
          module=None):
     REG[pid] = {"module": module or f"NirVerif.Properties.{pid}", "theorems": list(theorems), "translator": list(translator),
                 "run": run, "rule": rule, "level_text": level_text, "level_note": level_note,
-                "technique": technique or "Lean 4 proof over hand-written model + model/implementation correspondence",
+                "technique": technique or _technique(translator),
                 "assumptions": list(assumptions)}
 
 
